@@ -3,3 +3,6 @@ import HG.Model.Graph
 import HG.Model.Sched
 import HG.Model.Exec
 import HG.Model.Run
+import HG.Model.Rename
+import HG.Lemmas.Rename
+import HG.Props.C06
